@@ -71,3 +71,149 @@ Theorem C16_only_output_dictionaries_written :
           (Proofs.EffectsParams.written_names Gen.Effects.summary Gen.Effects.entry_params "assemble") = true.
 Proof. exact Proofs.EffectsParams.assemble_writes_only_outputs. Qed.
 Print Assumptions C16_only_output_dictionaries_written.
+
+(* ---- FRAME: which caller-visible argument objects a call can change at all (Proofs/EffectsFrame.v).
+   Model reading: a state has one cell per caller-visible argument object (`cargs`); a cell holds the whole content of the object
+   (the object and everything reachable from it: at an entry point parameter i is bound to (PlArg i, PlArg i)); the cells of one call
+   are distinct objects.  "The k-th argument object is unchanged" is  nth_error (final cells) k = nth_error (given cells) k.
+   `untouched s f k` = neither (f, k, shallow) nor (f, k, deep) is in the write set wparams s (reach s).
+   No side condition beyond summary_ok is needed (check itself verifies that W is closed under the stores and calls). *)
+From BB Require Import Proofs.EffectsFrame.
+
+(* if both keys of (entry, k) are outside the write set, the k-th argument object after the call is the one the call was given:
+   every program abstracted by the summary, every fuel, hash seed, module state, call (failing ones included) *)
+Theorem C16_untouched_arguments :
+  forall (val seedT : Type) (s : Proofs.Effects.summary) (P : program val seedT), abstracts s P -> summary_ok s = true ->
+  forall (fuel : nat) (seed : seedT) (G : gstate val) (c : call val) (k : nat),
+    In (c_entry c) (s_entries s) ->
+    memW (c_entry c, k, false) (wparams s (reach s)) = false ->
+    memW (c_entry c, k, true) (wparams s (reach s)) = false ->
+    nth_error (snd (fst (run_call P fuel seed G c))) k = nth_error (c_args c) k.
+Proof. exact untouched_arguments. Qed.
+Print Assumptions C16_untouched_arguments.
+
+(* no call of any program changes the number of argument objects *)
+Theorem C16_arguments_length :
+  forall (val seedT : Type) (P : program val seedT) (fuel : nat) (seed : seedT) (G : gstate val) (c : call val),
+    List.length (snd (fst (run_call P fuel seed G c))) = List.length (c_args c).
+Proof. exact arguments_length. Qed.
+Print Assumptions C16_arguments_length.
+
+(* the same for every call of a history of entry calls *)
+Theorem C16_untouched_history :
+  forall (val seedT : Type) (s : Proofs.Effects.summary) (P : program val seedT), abstracts s P -> summary_ok s = true ->
+  forall (fuel : nat) (seed : seedT) (G0 : gstate val) (h : list (call val)) (k : nat),
+    Forall (fun c => In (c_entry c) (s_entries s) /\ untouched s (c_entry c) k = true) h ->
+    map (fun r : result val => nth_error (snd r) k) (run_history P fuel seed G0 h) = map (fun c => nth_error (c_args c) k) h.
+Proof. exact untouched_history. Qed.
+Print Assumptions C16_untouched_history.
+
+(* ONE object handed to every call of a history as argument k (run_history_shared: what a call leaves in it is what the next call
+   receives): each call gives the result of that call alone, from the initial module state, under any other hash seed, with the
+   ORIGINAL content v of the shared object *)
+Theorem C16_shared_argument_history :
+  forall (val seedT : Type) (s : Proofs.Effects.summary) (P : program val seedT), abstracts s P -> summary_ok s = true ->
+  forall (fuel : nat) (seed seed' : seedT) (G0 : gstate val) (k : nat) (v : val) (h : list (call val)),
+    Forall (fun c => In (c_entry c) (s_entries s) /\ untouched s (c_entry c) k = true) h ->
+    run_history_shared P fuel seed G0 k v h = map (fun c => fst (run_call P fuel seed' G0 (with_arg k v c))) h.
+Proof. exact shared_argument_history. Qed.
+Print Assumptions C16_shared_argument_history.
+
+(* the semantic reading of the computed check written_only (Proofs/EffectsParams.v): a position of the entry function whose parameter
+   name is not in the allowed list (or that lies beyond the signature) is never changed *)
+Theorem C16_written_only_frame :
+  forall (val seedT : Type) (s : Proofs.Effects.summary) (P : program val seedT), abstracts s P -> summary_ok s = true ->
+  forall (names : list (string * list string)) (allowed : list string)
+         (fuel : nat) (seed : seedT) (G : gstate val) (c : call val) (k : nat),
+    In (c_entry c) (s_entries s) ->
+    Proofs.EffectsParams.written_only s names (c_entry c) allowed = true -> not_allowed names (c_entry c) allowed k = true ->
+    nth_error (snd (fst (run_call P fuel seed G c))) k = nth_error (c_args c) k.
+Proof. exact written_only_frame. Qed.
+Print Assumptions C16_written_only_frame.
+
+(* the regenerated summary: every program it abstracts leaves the argument objects of assemble() at the positions of `compress` and
+   `include_dirs` (by NAME in Gen.Effects.entry_params: positions 3 and 4, see C16_search_path_positions) unchanged by any call;
+   derived from C16_only_output_dictionaries_written, not from a separate computation *)
+Theorem C16_search_path_untouched :
+  forall (val seedT : Type) (P : program val seedT), abstracts Gen.Effects.summary P ->
+  forall (fuel : nat) (seed : seedT) (G : gstate val) (c : call val) (k : nat) (n : string),
+    c_entry c = "assemble"%string ->
+    param_name Gen.Effects.entry_params "assemble" k = Some n -> n = "compress"%string \/ n = "include_dirs"%string ->
+    nth_error (snd (fst (run_call P fuel seed G c))) k = nth_error (c_args c) k.
+Proof. exact search_path_untouched. Qed.
+Print Assumptions C16_search_path_untouched.
+
+(* ... and so is every other position that is not one of the three outputs *)
+Theorem C16_non_output_arguments_untouched :
+  forall (val seedT : Type) (P : program val seedT), abstracts Gen.Effects.summary P ->
+  forall (fuel : nat) (seed : seedT) (G : gstate val) (c : call val) (k : nat),
+    c_entry c = "assemble"%string ->
+    not_allowed Gen.Effects.entry_params "assemble" ["path_or_source"; "constants"; "labels"]%string k = true ->
+    nth_error (snd (fst (run_call P fuel seed G c))) k = nth_error (c_args c) k.
+Proof. exact non_output_arguments_untouched. Qed.
+Print Assumptions C16_non_output_arguments_untouched.
+
+(* every call of every history of entry calls (assemble and cli_main mixed) *)
+Theorem C16_search_path_untouched_history :
+  forall (val seedT : Type) (P : program val seedT), abstracts Gen.Effects.summary P ->
+  forall (fuel : nat) (seed : seedT) (G0 : gstate val) (h : list (call val)) (k : nat) (n : string),
+    Forall (fun c => In (c_entry c) (s_entries Gen.Effects.summary)) h ->
+    param_name Gen.Effects.entry_params "assemble" k = Some n -> n = "compress"%string \/ n = "include_dirs"%string ->
+    map (fun r : result val => nth_error (snd r) k) (run_history P fuel seed G0 h) = map (fun c => nth_error (c_args c) k) h.
+Proof. exact search_path_untouched_history. Qed.
+Print Assumptions C16_search_path_untouched_history.
+
+(* one include_dirs list kept by the caller and handed to every call: every call behaves as the call alone with the original list *)
+Theorem C16_shared_search_path_history :
+  forall (val seedT : Type) (P : program val seedT), abstracts Gen.Effects.summary P ->
+  forall (fuel : nat) (seed seed' : seedT) (G0 : gstate val) (h : list (call val)) (k : nat) (n : string) (v : val),
+    Forall (fun c => In (c_entry c) (s_entries Gen.Effects.summary)) h ->
+    param_name Gen.Effects.entry_params "assemble" k = Some n -> n = "compress"%string \/ n = "include_dirs"%string ->
+    run_history_shared P fuel seed G0 k v h = map (fun c => fst (run_call P fuel seed' G0 (with_arg k v c))) h.
+Proof. exact shared_search_path_history. Qed.
+Print Assumptions C16_shared_search_path_history.
+
+Example C16_search_path_positions :
+  param_name Gen.Effects.entry_params "assemble" 3 = Some "compress"%string /\
+  param_name Gen.Effects.entry_params "assemble" 4 = Some "include_dirs"%string.
+Proof. exact gen_param_positions. Qed.
+
+(* non-vacuity on ex_summary / ex_program: the hypotheses hold for position 0 of the entry, the call DOES write another argument
+   object (cell 1: 20 -> 28), and cell 0 is the one it was given *)
+Example C16_frame_hypotheses_satisfiable :
+  abstracts ex_summary ex_program /\ summary_ok ex_summary = true /\
+  In (c_entry ex_call2) (s_entries ex_summary) /\
+  memW (c_entry ex_call2, 0, false) (wparams ex_summary (reach ex_summary)) = false /\
+  memW (c_entry ex_call2, 0, true) (wparams ex_summary (reach ex_summary)) = false /\
+  c_args ex_call2 = [10; 20] /\
+  snd (fst (run_call ex_program 5 0 (fun _ => 4) ex_call2)) = [10; 28].
+Proof.
+  split; [exact ex_abstracts|]. split; [exact ex_ok|]. split; [left; reflexivity|].
+  split; [vm_compute; reflexivity|]. split; [vm_compute; reflexivity|]. split; [reflexivity|exact ex_frame_run].
+Qed.
+
+(* the hypothesis is needed: a position inside the write set does change ... *)
+Example C16_written_argument_changes :
+  untouched ex_summary "assemble" 1 = false /\
+  nth_error (snd (fst (run_call ex_program 5 0 (fun _ => 4) ex_call2))) 1 <> nth_error (c_args ex_call2) 1.
+Proof. exact ex_written_cell_changes. Qed.
+
+(* ... BOTH keys are needed (only the deep key of (assemble, 0) is in the write set; the cell changes: 10 -> 11) ... *)
+Example C16_deep_key_needed :
+  summary_ok deep_summary = true /\
+  memW ("assemble"%string, 0, false) (wparams deep_summary (reach deep_summary)) = false /\
+  memW ("assemble"%string, 0, true) (wparams deep_summary (reach deep_summary)) = true /\
+  snd (fst (run_call deep_program 5 0 (fun _ => 0) {| c_entry := "assemble"; c_args := [10]; c_input := 3 |})) = [11].
+Proof. exact deep_key_needed. Qed.
+
+(* ... and a shared object at a written position makes the second call see what the first one left (the mechanism of an
+   include_dirs list extended in place), while sharing the untouched position is harmless *)
+Example C16_shared_written_argument_differs :
+  run_history_shared ex_program 5 0 (fun _ => 4) 1 20 [ex_call2; ex_call2]
+  <> map (fun c => fst (run_call ex_program 5 0 (fun _ => 4) (with_arg 1 20 c))) [ex_call2; ex_call2].
+Proof. exact ex_shared_written_differs. Qed.
+
+Example C16_shared_untouched_argument_same :
+  run_history_shared ex_program 5 0 (fun _ => 4) 0 10 [ex_call2; ex_call2]
+  = map (fun c => fst (run_call ex_program 5 1 (fun _ => 4) (with_arg 0 10 c))) [ex_call2; ex_call2].
+Proof. exact ex_shared_untouched. Qed.
